@@ -29,6 +29,7 @@ def profile():
         'poison': 0.3,
         'more_runs': 0.15,
         'ref_json': 0.12,
+        'cli_extra': {'interaction_order': lambda rng, wl: 2 if len(wl['header']) <= 5 and rng.random() < 0.08 else None},
     }, doc
 
 
